@@ -1,1 +1,164 @@
-From NV Require Import C12.Model.
+(* C12/Props.v — property theorems only.  Property C12: all serialisation routes and accepted
+   file names are equivalent.  Names are lists of code points; `lower e' = lower e` says e' is
+   the extension e in ANY mix of upper and lower case; suffix_ok k s' says s' is empty or one of
+   the class's compression suffixes in any case; root is an arbitrary string (directories, dots,
+   spaces, non-ASCII).  wf_class / wf_names / wf_table are boolean checks of the class tables,
+   discharged for the tables generated from the source by C12_tables_wf. *)
+From Coq Require Import ZArith List Bool Lia.
+From NV Require Import Base.Bytes C12.Str C12.Model C12.Tables C12.Lemmas.
+Import ListNotations.
+Open Scope Z_scope.
+
+(* the generated tables (all_image_classes, Opener/ImageOpener.compress_ext_map) are well formed *)
+Theorem C12_tables_wf :
+  wf_table all_classes = true /\ forallb dotted opener_keys = true /\ forallb dotted image_opener_keys = true.
+Proof. exact (conj all_classes_wf opener_keys_wf). Qed.
+Print Assumptions C12_tables_wf.
+
+(* the file map entry of the member whose extension the user spelled is exactly the name given *)
+Theorem C12_named_member_written : forall k root nm e e' s',
+  wf_class k = true -> In (nm, e) (ftypes k) -> lower e' = lower e -> suffix_ok k s' ->
+  exists fm, filespec_to_file_map k (root ++ e' ++ s') = Ok fm
+             /\ dict_get fm nm = Some (root ++ e' ++ s').
+Proof. exact filespec_named_member. Qed.
+Print Assumptions C12_named_member_written.
+
+(* same at the level of types_filenames, for every class's name tables (AFNIImage included) *)
+Theorem C12_named_member_types_filenames : forall k root nm e e' s',
+  wf_names k = true -> In (nm, e) (ftypes k) -> lower e' = lower e -> suffix_ok k s' ->
+  exists tf, types_filenames true false (ftypes k) (csuf k) (root ++ e' ++ s') = Ok tf
+             /\ dict_get tf nm = Some (root ++ e' ++ s').
+Proof. exact tf_named_member. Qed.
+Print Assumptions C12_named_member_types_filenames.
+
+(* MGHImage-style classes: a spelling of ".mgz" that posixpath.splitext recognises as the
+   extension is written under the name given *)
+Theorem C12_mgz_written : forall k root m',
+  fkind k = 1 -> lower m' = MGZ -> os_splitext (root ++ m') = (root, m') ->
+  filespec_to_file_map k (root ++ m') = Ok [(IMAGE, root ++ m')].
+Proof. exact filespec_mgz. Qed.
+Print Assumptions C12_mgz_written.
+
+(* ... and without that premise the statement is false: for the dot-file name ".mgz" load()
+   accepts the extension (splitext_addext) but the file map names ".mgz.mgh" (finding S-C12b) *)
+Theorem C12_mgz_dotfile_refuted :
+  exists k fn fm, wf_class k = true /\ fkind k = 1 /\ In k all_classes
+    /\ ext_valid k fn = true /\ filespec_to_file_map k fn = Ok fm
+    /\ forall nm, dict_get fm nm <> Some fn.
+Proof. exact mgz_dotfile_refuted. Qed.
+Print Assumptions C12_mgz_dotfile_refuted.
+
+(* the other members share root and suffix (as spelled) and follow the case rule: upper-case
+   extension when the user's is all upper case, the table's (lower-case) extension otherwise *)
+Theorem C12_members_consistent : forall k root nm e e' s' nm2 e2,
+  wf_names k = true -> In (nm, e) (ftypes k) -> lower e' = lower e -> suffix_ok k s' ->
+  In (nm2, e2) (ftypes k) -> nm2 <> nm ->
+  exists tf, types_filenames true false (ftypes k) (csuf k) (root ++ e' ++ s') = Ok tf
+             /\ dict_get tf nm2 = Some (root ++ (if str_eqb e' (upper e') then upper e2 else e2) ++ s').
+Proof. exact tf_other_members. Qed.
+Print Assumptions C12_members_consistent.
+
+(* parse_filename is a lossless split of ANY name, whatever the tables and match_case;
+   types_filenames (enforce_extensions=True) either refuses with one of its two errors or names a
+   file for every member; and whenever a member is guessed its entry is the name given
+   (norm_template = minus one final dot, re-stringified) *)
+Theorem C12_parse_total : forall mc tys sufs fn,
+  (forall f e ign g, parse_filename mc tys sufs fn = (f, e, ign, g) -> f ++ e ++ opt_str ign = fn)
+  /\ ((exists e, types_filenames true mc tys sufs fn = Err e /\ (e = ErrWrongExt \/ e = ErrConfusing)) \/
+      (exists tf, types_filenames true mc tys sufs fn = Ok tf /\
+         forall n e, In (n, e) tys -> exists v, dict_get tf n = Some v))
+  /\ (forall f e ign g, parse_filename mc tys sufs (norm_template fn) = (f, e, ign, Some g) ->
+      exists tf, types_filenames true mc tys sufs fn = Ok tf /\ dict_get tf g = Some (norm_template fn)).
+Proof.
+  intros mc tys sufs fn. split; [|split].
+  - intros f e ign g. apply parse_filename_app.
+  - apply tf_total.
+  - intros f e ign g. apply tf_guessed.
+Qed.
+Print Assumptions C12_parse_total.
+
+(* generic load on a name written by class number n of the table (member extension e valid
+   for loading, any case mix e', suffix s'), when the class's own header test accepts the file
+   (oracle bit n): the loop returns a class j <= n that accepts the extension, and that class's
+   file map contains the very name given.  The premise about ".mgz" excludes dot-files only. *)
+Theorem C12_load_finds_class : forall ks oracle n k root e e' s',
+  wf_table ks = true -> nth_error ks n = Some k -> wf_class k = true ->
+  In e (vexts k) -> lower e' = lower e -> suffix_ok k s' ->
+  nth n oracle false = true ->
+  (s' = [] -> lower e' = MGZ -> os_splitext (root ++ e') = (root, e')) ->
+  exists j kj, load_class ks oracle (root ++ e' ++ s') 0 = Ok (Some j) /\ (j <= n)%nat
+    /\ nth_error ks j = Some kj /\ ext_valid kj (root ++ e' ++ s') = true
+    /\ (wf_class kj = true ->
+        exists fm nm, filespec_to_file_map kj (root ++ e' ++ s') = Ok fm
+                      /\ dict_get fm nm = Some (root ++ e' ++ s')).
+Proof. intros ks oracle n k root e e' s' H. apply load_finds_class. now apply wf_table_ok. Qed.
+Print Assumptions C12_load_finds_class.
+
+(* for ANY name: the class loop never raises (no TypesFilenamesError escapes _sniff_meta_for),
+   and a class it picks accepts the extension and — unless the two splitext functions disagree
+   about ".mgz" — has a file map that contains the name *)
+Theorem C12_load_any_name : forall ks oracle fn,
+  wf_table ks = true ->
+  (exists r, load_class ks oracle fn 0 = Ok r)
+  /\ forall j, load_class ks oracle fn 0 = Ok (Some j) ->
+       exists kj, nth_error ks j = Some kj /\ ext_valid kj fn = true
+         /\ (wf_class kj = true -> (fkind kj = 1 -> mgz_agree fn) ->
+             exists fm nm, filespec_to_file_map kj fn = Ok fm /\ dict_get fm nm = Some fn).
+Proof.
+  intros ks oracle fn H. split; [apply load_class_total; now apply wf_table_ok|].
+  intros j Hj. destruct (load_class_sound ks oracle fn 0 j Hj) as (kj & _ & Hn & Hv).
+  rewrite Nat.sub_0_r in Hn. exists kj. repeat split; auto.
+  intros Hwf Hag. now apply ext_valid_accepts.
+Qed.
+Print Assumptions C12_load_any_name.
+
+(* the opener (compression) used for a written file is the one of its suffix, in any case *)
+Theorem C12_opener_matches_suffix : forall keys root x y,
+  dottedi x = true -> dottedi y = true ->
+  opener_index keys (root ++ x ++ y) = find_index (fun key => ieq key y) keys 0.
+Proof. exact opener_index_suffix. Qed.
+Print Assumptions C12_opener_matches_suffix.
+
+(* to_bytes = to_stream = the file written by name read back through its opener, for any
+   serialiser of the class and any codec family with decompress (compress b) = b; for a name
+   spelled root ++ ext' ++ suffix' of a single-file class the file is that very name *)
+Theorem C12_routes_equal :
+  forall (Img : Type) (serialize : Img -> list Z) (compress decompress : option nat -> list Z -> list Z)
+         (keys : list str),
+  (forall o b, decompress o (compress o b) = b) ->
+  (forall k img name fs fs',
+     to_filename Img serialize compress keys k img name fs = Ok (Some fs') ->
+     exists key fname,
+       filespec_to_file_map k name = Ok [(key, fname)]
+       /\ fs' = (fname, compress (opener_index keys fname) (serialize img)) :: fs
+       /\ read_file decompress keys fs' fname = Some (to_bytes Img serialize img)
+       /\ to_stream Img serialize img = to_bytes Img serialize img)
+  /\ (forall k img root nm e e' s' fs,
+     wf_class k = true -> ftypes k = [(nm, e)] -> lower e' = lower e -> suffix_ok k s' ->
+     exists fs', to_filename Img serialize compress keys k img (root ++ e' ++ s') fs = Ok (Some fs')
+       /\ read_file decompress keys fs' (root ++ e' ++ s') = Some (to_bytes Img serialize img)).
+Proof.
+  intros Img serialize compress decompress keys codec. split.
+  - intros. eapply routes_equal; eauto.
+  - intros. eapply routes_named; eauto.
+Qed.
+Print Assumptions C12_routes_equal.
+
+(* non-vacuity: NIfTI-1 pair, root with a directory, a space and a dot, Mixed-case header
+   extension, Mixed-case .gz: hypotheses hold, the header is the name given, the image follows *)
+Example C12_nonvacuous :
+  let root := [97;32;98;47;102;46;120] in               (* "a b/f.x" *)
+  let e' := [46;72;100;82] in                            (* ".HdR" *)
+  let s' := [46;71;122] in                               (* ".Gz" *)
+  wf_class k_Nifti1Pair = true /\ In (HEADER, [46;104;100;114]) (ftypes k_Nifti1Pair)
+  /\ lower e' = lower [46;104;100;114] /\ suffix_ok k_Nifti1Pair s'
+  /\ filespec_to_file_map k_Nifti1Pair (root ++ e' ++ s')
+     = Ok [(IMAGE, root ++ [46;105;109;103] ++ s'); (HEADER, root ++ e' ++ s')]
+  /\ load_class all_classes (repeat true 14) (root ++ e' ++ s') 0 = Ok (Some 0%nat)
+  /\ opener_index image_opener_keys (root ++ e' ++ s') = Some 0%nat.
+Proof.
+  cbv zeta. split; [vm_compute; reflexivity|]. split; [right; left; reflexivity|].
+  split; [vm_compute; reflexivity|]. split.
+  - right. exists [46;103;122]. split; [left; reflexivity|vm_compute; reflexivity].
+  - repeat split; vm_compute; reflexivity.
+Qed.
